@@ -1,9 +1,12 @@
 #!/usr/bin/env python3
-"""dev helper: apply a textual mutation to /repo, run a check command, restore. usage: mut.py FILE OLD NEW -- cmd..."""
-import subprocess, sys
+"""dev helper: apply a textual mutation to a source tree, run a command, restore.
+usage: [VERIF_REPO=/tmp/copy] tools/mut.py FILE OLD NEW -- cmd...     (FILE relative to the tree; default tree /repo)
+Set VERIF_REPO to a private copy of /repo when several people work at once: the extractor reads from $VERIF_REPO."""
+import os, subprocess, sys
+root = os.environ.get("VERIF_REPO", "/repo")
 f, old, new = sys.argv[1:4]
 cmd = sys.argv[5:]
-p = "/repo/" + f
+p = os.path.join(root, f)
 s = open(p).read()
 assert s.count(old) >= 1, "pattern not found"
 open(p, "w").write(s.replace(old, new, 1))
@@ -11,4 +14,4 @@ try:
     r = subprocess.run(cmd)
     print("exit", r.returncode)
 finally:
-    subprocess.run(["git", "-C", "/repo", "checkout", "--", f])
+    open(p, "w").write(s)
